@@ -591,6 +591,27 @@ func ppPackCase(w *bufio.Writer, r *u.Rng, dist map[string]int, caseNo int) {
 	fmt.Fprintf(w, "CASE 1 %s\n", u.App("PackCase", ppB(long), u.Z(tcode), u.Z(0), u.Hex(mid), u.Z(pnUsed), u.Z(la), u.Hex(res.Ack), u.Hex(res.Frames), u.Z(int64(extra)),
 		u.Hex(res.Log.SealCT), u.Hex(res.Log.HPSample), u.Hex(mask), u.Z(int64(res.PNLen)), u.Hex(res.Packet)))
 	dist[fmt.Sprintf("pack-%v-pnlen%d-payload%s", map[bool]string{true: "long", false: "short"}[long], res.PNLen, map[bool]string{true: "<4", false: ">=4"}[len(res.Ack)+len(res.Frames) < 4])]++
+	if long {
+		// the datagram level: coalesced bytes behind the packet; wire.ParsePacket must cut out exactly the packet
+		rest := r.Bytes(int(r.Pick(0, 0, 1, 9)))
+		var l3 quic.VerifProtLog
+		// a fresh opener with the same receive state is not needed: parse only (class of the unpack is monitored below)
+		dg := append(append([]byte{}, res.Packet...), rest...)
+		h, pktOnly, restGo, perr := wire.ParsePacket(dg)
+		_ = l3
+		if perr != nil || !bytes.Equal(pktOnly, res.Packet) || !bytes.Equal(restGo, rest) {
+			fmt.Fprintf(w, "MONFAIL\tprotect/pack-parsepacket\twire.ParsePacket did not cut the packet the packer built out of the datagram (err %v, %d of %d bytes)\t%s\n", perr, len(pktOnly), len(res.Packet), ctx)
+		} else {
+			if h.DestConnectionID != dcid || h.SrcConnectionID != scid || h.Version != version || !bytes.Equal(h.Token, token) ||
+				int(h.Length) != res.PNLen+len(pt)+e.sealer.Overhead() {
+				fmt.Fprintf(w, "MONFAIL\tprotect/pack-header-fields\tunprotected header fields differ from what the packer was given (length %d)\t%s\n", h.Length, ctx)
+			}
+			fmt.Fprintf(w, "CASE 1 %s\n", u.App("LongDgCase", u.Z(int64(h.Type)), u.ZU(uint64(version)), u.Hex(scid.Bytes()), u.Hex(dcid.Bytes()), u.Hex(token),
+				u.Z(pnUsed), u.Z(la), u.Hex(res.Ack), u.Hex(res.Frames), u.Z(int64(extra)), u.Hex(res.Log.SealCT), u.Hex(res.Log.HPSample), u.Hex(mask),
+				u.Hex(res.Packet), u.Hex(rest), u.Z(int64(h.ParsedLen())), u.Z(int64(len(pktOnly))), u.Z(int64(h.Length))))
+			dist["pack-long-datagram"]++
+		}
+	}
 	// open it with the real unpacker; replay the unpacker in the model (UnprotCase)
 	var l2 quic.VerifProtLog
 	up, hdrLen, pktLen, cls := e.unpack(res.Packet, &l2)
